@@ -283,3 +283,103 @@ pub fn run_hostile(tr: &mut Trace, run: u64, seed: u64) -> HostileStats {
     tr.line(json!({"ev": "End", "run": run, "dead": p.dead, "calls": p.calls}));
     HostileStats { injected, dead: p.dead }
 }
+
+/// Reassembly scenario (C04): every fragment of a batch of packets is handed to the receiver in its own
+/// frame, in a random order, with repetitions, and - after the genuine copy of a fragment has been handed
+/// over - with copies that disagree with it (other payload length or contents, other header fields).
+pub fn run_reasm(tr: &mut Trace, run: u64, seed: u64) -> HostileStats {
+    let mut r = Rng::new(seed);
+    crate::hc_random::uflow_rand_seed(seed);
+    let cfg = PairCfg { pw: 4096, fw: 4096, pbase: [(r.next() as u32) & PID_MASK, 0], fbase: [r.next() as u32, 0],
+        rx_alloc: [1_000_000, 1_000_000], bw: [2_000_000, 2_000_000], keepalive: None };
+    let mut p = Pair::new(cfg.clone());
+    p.log_probe = false;
+    tr.line(json!({"ev": "Reset", "run": run, "seed": seed as i64 & 0x3FFFFFFF, "driver": "hc-random", "profile": "reasm", "ideal": false,
+        "cfg": p.cfg_json(), "ceil_a": cfg.bw[0], "ceil_b": cfg.bw[1], "nch": 4, "latency": 0, "cadence": 0}));
+    let npk = r.range(3, 12);
+    let m = MAX_FRAGMENT_SIZE;
+    for _ in 0..npk {
+        let len = match r.below(7) {
+            0 => r.range(4, 1448) as usize,
+            1 => m * r.range(1, 4) as usize,
+            2 => m * r.range(1, 4) as usize + 1,
+            3 => m * r.range(2, 5) as usize - 1,
+            4 => r.range(m as u64 + 1, 6 * m as u64) as usize,
+            5 => 0,
+            _ => r.range(m as u64 * 2, m as u64 * 3) as usize,
+        };
+        p.send(tr, 0, r.below(4) as u8, SendMode::Reliable, len);
+    }
+    // everything leaves in one flush with ample credit
+    let frames = p.flush(tr, 0, Some((1 << 30, 1, 1000, 1000)));
+    let mut dgs: Vec<uv::Datagram> = Vec::new();
+    for (_, bytes) in frames.iter() {
+        if let Some(uv::Frame::DataFrame(f)) = uv::Frame::read(bytes) {
+            dgs.extend(f.datagrams);
+        }
+    }
+    // random order with repetitions
+    let mut order: Vec<usize> = (0..dgs.len()).collect();
+    for k in (1..order.len()).rev() {
+        let j = r.below(k as u64 + 1) as usize;
+        order.swap(k, j);
+    }
+    let extra = r.below(dgs.len() as u64 + 1);
+    for _ in 0..extra {
+        let at = r.below(order.len() as u64 + 1) as usize;
+        order.insert(at, r.below(dgs.len() as u64) as usize);
+    }
+    let mut seen: Vec<usize> = Vec::new(); // genuine datagrams already handed over
+    let mut injected = 0u64;
+    let hand = |p: &mut Pair, tr: &mut Trace, d: uv::Datagram, origin: serde_json::Value| {
+        let s = p.ep[1].hc.as_ref().unwrap().verif_snapshot();
+        let f = uv::Frame::DataFrame(uv::DataFrame { sequence_id: s.rf_base, nonce: false, datagrams: vec![d] });
+        if let Some(b) = write_frame(&f) {
+            if b.len() <= MAX_FRAME_SIZE {
+                p.handle_bytes(tr, 1, &b, origin);
+            }
+        }
+    };
+    for &i in order.iter() {
+        if p.dead {
+            break;
+        }
+        hand(&mut p, tr, dgs[i].clone(), json!({"genuine": i}));
+        if !seen.contains(&i) {
+            seen.push(i);
+        }
+        // a disagreeing copy of something that has already been handed over
+        if r.chance(50, 100) && !p.dead {
+            let j = *r.pick(&seen);
+            let mut d = dgs[j].clone();
+            let is_last = d.fragment_id == d.fragment_id_last;
+            let ok = match r.below(6) {
+                0 if is_last => { let n = r.below(d.data.len() as u64 + 1) as usize; d.data = d.data[..n].to_vec().into_boxed_slice(); true }
+                1 if is_last && d.data.len() < m => { let mut v = d.data.to_vec(); v.extend(std::iter::repeat(0xEE).take(r.range(1, (m - v.len()) as u64) as usize)); d.data = v.into_boxed_slice(); true }
+                2 => { let mut v = d.data.to_vec(); for b in v.iter_mut() { *b ^= 0xFF; } d.data = v.into_boxed_slice(); !v_is_empty(&d) }
+                3 if d.fragment_id_last > 0 => { d.fragment_id_last += 1; d.fragment_id == d.fragment_id_last - 1 && d.data.len() == m || d.data.len() == m }
+                4 => { d.window_parent_lead = d.window_parent_lead.wrapping_add(1).max(1); if d.channel_parent_lead != 0 && d.channel_parent_lead < d.window_parent_lead { d.channel_parent_lead = d.window_parent_lead; } true }
+                _ => false,
+            };
+            if ok {
+                injected += 1;
+                hand(&mut p, tr, d, json!({"forged": "disagreeing-fragment"}));
+            }
+        }
+        if r.chance(1, 4) && !p.dead {
+            p.receive(tr, 1);
+        }
+    }
+    if !p.dead {
+        p.receive(tr, 1);
+        // every packet was Reliable and every fragment was handed over: all of them must have been delivered
+        let all = p.ep[0].subs.iter().all(|s| s.delivered);
+        tr.line(json!({"ev": "ReasmEnd", "all_delivered": all, "packets": p.ep[0].subs.len()}));
+    }
+    tr.line(json!({"ev": "End", "run": run, "dead": p.dead, "calls": p.calls}));
+    HostileStats { injected, dead: p.dead }
+}
+
+fn v_is_empty(d: &uv::Datagram) -> bool {
+    d.data.is_empty()
+}
